@@ -436,8 +436,8 @@ Ltac step_cases H th :=
 (* expose the components of a measure's total after a transition *)
 Ltac mnorm :=
   unfold shw, skip_event, gate_at, gate_enq, upd_gate, push, w_stack, w_depth, w_unw, destroy_pipes;
-  cbn [gates bag log pout exc canceled compl gnext done result bprods stack depth unw is_pool
-       w_gates w_bag w_pout w_exc w_canceled w_compl w_gnext w_done w_result add_log];
+  cbn [gates bag log pout exc canceled compl gnext done result gx bprods stack depth unw is_pool
+       w_gates w_bag w_pout w_exc w_canceled w_compl w_gnext w_done w_result w_gx add_log];
   repeat rewrite ?bagw_app, ?gatesw_upd_res, ?gatesw_upd_out, ?logw_cons, ?stackw_cons.
 
 (* the scalar fields are untouched by the stranding of the queues *)
@@ -621,7 +621,7 @@ Ltac acct_pre Hst :=
   mnorm; rewrite ?Hst; rewrite ?stackw_cons; rewrite ?strand_gates_bag, ?logw_strand_gates, ?gatesw_emptied;
   rewrite ?strand_gates_pout, ?strand_gates_exc, ?strand_gates_canceled, ?strand_gates_compl, ?strand_gates_gnext, ?strand_gates_done, ?strand_gates_result;
   try (erewrite !bagw_rem by eassumption); unfold first_wait, after_wait, gate_at in *;
-  cbn [gates bag log pout exc canceled compl gnext done result w_gates w_exc w_result map]; rewrite ?g_res_nth_emptied, ?g_out_nth_emptied.
+  cbn [gates bag log pout exc canceled compl gnext done result gx w_gates w_exc w_result w_gx w_pout map]; rewrite ?g_res_nth_emptied, ?g_out_nth_emptied.
 Ltac nth_cases :=
   rewrite ?g_res_nth_upd by reflexivity; rewrite ?g_out_nth_upd by reflexivity;
   repeat match goal with
